@@ -526,10 +526,14 @@ func (f *Frame) cutLoop(L *Loop, invs []Clause) {
 		}
 	}
 	phis := f.headerPhis(L)
+	ind := inductionPhi(L)
 	for _, p := range phis {
 		v := c.freshVal(lname+"."+p.Comment, p.Type())
 		f.assumeAllocated(v)
 		f.env[p] = v
+		if p != ind {
+			f.cutCarried = append(f.cutCarried, valTerms(v)...)
+		}
 	}
 	saved := map[*ssa.Phi]*Val{}
 	for _, p := range phis {
@@ -753,7 +757,7 @@ func (w *World) verifyCase(ct *Contract, caseIdx int) (res *FuncResult) {
 		for _, b := range fn.Blocks {
 			for _, in := range b.Instrs {
 				if ci, ok := in.(ssa.CallInstruction); ok {
-					if _, isB := ci.Common().Value.(*ssa.Builtin); !isB && strings.Contains(calleeLabel(ci.Common()), ca.Callee) {
+					if strings.Contains(calleeLabel(ci.Common()), ca.Callee) {
 						n++
 					}
 				}
@@ -1000,4 +1004,87 @@ func (c *Ctx) memHolds(mem string, t types.Type) bool {
 		}
 	}
 	return false
+}
+
+// valTerms lists the solver-level components of a value.
+func valTerms(v *Val) []Term {
+	if v == nil {
+		return nil
+	}
+	switch v.K {
+	case KScalar:
+		return []Term{v.T}
+	case KSlice:
+		return []Term{v.Base, v.Off, v.Len, v.Cap}
+	case KIface:
+		return []Term{v.Tag, v.Pay}
+	case KTuple:
+		var out []Term
+		for _, x := range v.F {
+			out = append(out, valTerms(x)...)
+		}
+		return out
+	}
+	return nil
+}
+
+// loopFree: the term does not depend on the loop-carried values of the cut loops. Where none of their
+// symbols occurs in the fully expanded term this holds by construction; otherwise the claim is the
+// obligation that the term keeps its value when those symbols are replaced by fresh unconstrained ones.
+func (f *Frame) loopFree(t Term) Term {
+	c := f.c
+	if len(f.cutCarried) == 0 {
+		return TTrue
+	}
+	full := t.S
+	for k := 0; k < 40; k++ {
+		n := c.expandDefs(full, 0)
+		if n == full || len(n) > 4<<20 {
+			full = n
+			break
+		}
+		full = n
+	}
+	subst := map[string]string{}
+	for _, h := range f.cutCarried {
+		if h.S == "" || strings.ContainsAny(h.S, " (") {
+			continue
+		}
+		subst[h.S] = ""
+	}
+	hit := false
+	var sb strings.Builder
+	i := 0
+	for i < len(full) {
+		ch := full[i]
+		if ch == '(' || ch == ')' || ch == ' ' {
+			sb.WriteByte(ch)
+			i++
+			continue
+		}
+		j := i
+		for j < len(full) && full[j] != '(' && full[j] != ')' && full[j] != ' ' {
+			j++
+		}
+		tok := full[i:j]
+		if r, ok := subst[tok]; ok {
+			if r == "" {
+				for _, h := range f.cutCarried {
+					if h.S == tok {
+						r = c.Fresh("lf."+tok, h.Sort).S
+					}
+				}
+				subst[tok] = r
+			}
+			sb.WriteString(r)
+			hit = true
+		} else {
+			sb.WriteString(tok)
+		}
+		i = j
+	}
+	if !hit {
+		return TTrue
+	}
+	return Eq(t, raw(sb.String(), t.Sort))
 }
